@@ -314,7 +314,14 @@ func (w *World) genSubmit() *Op {
 			w.s.Probe("resubmit.same")
 		}
 	} else {
-		sub = w.pki.NewLeaf(t, len(w.subs), true)
+		if t.Chance(1, 10) {
+			if sub = w.pki.NewRootAsLeaf(t, len(w.subs)); sub != nil {
+				w.s.Probe("submit.root-as-leaf")
+			}
+		}
+		if sub == nil {
+			sub = w.pki.NewLeaf(t, len(w.subs), true)
+		}
 		w.subs = append(w.subs, sub)
 	}
 	kind := "add-chain"
